@@ -28,7 +28,8 @@ RULE = ('random LP and MIP portfolios plus hand-made problems with boolean varia
 ASSUMPTIONS = ['optimality of MIP answers is cross-checked against an independent HiGHS MILP run on the same arrays (validation, not certificate)',
                'infeasibility claims: certified exactly (Farkas multipliers found numerically, bound evaluated over the rationals, theorem infeasible_of_negative_bound) when the LP relaxation is infeasible; otherwise (infeasible only through integrality) cross-checked with HiGHS on the same arrays',
                'feasibility tolerance 1e-6 (scaled), value tolerance 2e-6 relative']
-MODELLED = ['the numerical solvers (cvxpy back ends): not verified; every answer is checked for feasibility, value identity and by an exact Lagrangian certificate (LP)',
+MODELLED = ['infinite bounds (the model\'s bounds are rationals): problems with infinite bounds are decided by the oracles on the real code only (feasibility, value identity, reference optimum)',
+            'the numerical solvers (cvxpy back ends): not verified; every answer is checked for feasibility, value identity and by an exact Lagrangian certificate (LP)',
             'the ortools interface is not installed in this sandbox and not exercised']
 EXPLANATION = 'theorems: the hand-off means exactly Feasible/value; per-instance certificate for what the solver returns'
 
@@ -67,7 +68,34 @@ def gen_raw(rnd):
             mapping.append({'var': j, 'bool': not isb})
     rnd.shuffle(mapping)
     # keep "first row decides": record which variables are boolean by first occurrence
-    return {'c': c, 'l': l, 'u': u, 'rows': rows, 'mapping': mapping}
+    raw = {'c': c, 'l': l, 'u': u, 'rows': rows, 'mapping': mapping}
+    r = rnd.random()
+    if r < 0.4:
+        # one-sided infinite bounds on continuous variables (e.g. a contract with max_cap = inf); the cost sign keeps
+        # the problem bounded in that direction (value = -c.x is maximised)
+        raw['inf'] = 'bounded'
+        for j in range(nb, n):
+            q = rnd.random()
+            if q < 0.4:
+                u[j] = 'inf'
+                c[j] = abs(c[j]) + 0.125
+            elif q < 0.6:
+                l[j] = '-inf'
+                c[j] = -abs(c[j]) - 0.125
+    elif r < 0.52 and n > nb:
+        # feasible in the box but unbounded unless a row stops it
+        raw['inf'] = 'maybe-unbounded'
+        j = rnd.randrange(nb, n)
+        u[j] = 'inf'
+        c[j] = -abs(c[j]) - 0.125
+    if 'inf' in raw:
+        # make the rows hold at a point of the box, so that these cases are feasible
+        x0 = [float(rnd.choice([0, 1])) if j < nb else (l[j] if isinstance(l[j], float) else 0.0) + 0.5 for j in range(n)]
+        for row in rows:
+            v = sum(a * x0[j] for j, a in row['coeffs'])
+            slack = gen.q8(rnd, 0, 2)
+            row['rhs'] = v + slack if row['kind'] == 'U' else (v - slack if row['kind'] == 'L' else v)
+    return raw
 
 
 def build_raw(raw):
@@ -85,7 +113,7 @@ def build_raw(raw):
     m = pd.DataFrame({'asset': 'a', 'node': 'n', 'type': 'd', 'time_step': 0, 'bool': [x['bool'] for x in raw['mapping']],
                       'var_name': 'v'}, index=[x['var'] for x in raw['mapping']])
     nodal = [(0, 'n')] * ct.count('N')
-    return OptimProblem(c=np.array(raw['c']), l=np.array(raw['l']), u=np.array(raw['u']), A=A, b=b, cType=ct, mapping=m, map_nodal_restr=nodal)
+    return OptimProblem(c=np.array(raw['c']), l=np.array([float(v) for v in raw['l']]), u=np.array([float(v) for v in raw['u']]), A=A, b=b, cType=ct, mapping=m, map_nodal_restr=nodal)
 
 
 class Recorder:
@@ -191,15 +219,22 @@ def run_case(scn, drv):
         feats.append('soft-then-hard')
         impl.solve(op, solver=solver, make_soft_problem=True)
     n = len(op.c)
+    has_inf = not (np.all(np.isfinite(op.l)) and np.all(np.isfinite(op.u)))
+    if has_inf:
+        feats.append('infinite-bounds:' + str(scn.get('raw', {}).get('inf')))
+        ctx.update(infinite_bounds=True)
     with Recorder() as recd:
         try:
             res = impl.solve(op, solver=solver)
         except Exception as e:
             feats.append('solver-exception:' + type(e).__name__)
             return r
-    opj = impl.problem_json(op_snapshot)
+    # the model's bounds are rationals: problems with infinite bounds are decided by the oracles on the real code only
+    opj = impl.problem_json(op_snapshot) if not has_inf else None
     # ---- correspondence: translate vs the recorded hand-off
     try:
+        if has_inf:
+            raise StopIteration
         ho = extract_handoff(recd, n)
         mod = drv.ok({'op': 'translate', 'problem': opj})
         dis = []
@@ -229,6 +264,8 @@ def run_case(scn, drv):
                     break
         for d in dis:
             r['disagreements'].append({'component': 'translate', 'detail': d})
+    except StopIteration:
+        pass
     except Exception as e:
         r['disagreements'].append({'component': 'translate', 'detail': 'hand-off could not be read back: %s: %s' % (type(e).__name__, e)})
     # ---- independent reference (HiGHS on the same arrays)
@@ -245,9 +282,12 @@ def run_case(scn, drv):
             ref = {'status': 'unverified'}
     if isinstance(res, str):
         feats.append('reported:' + res)
-        if res == 'not successful' and ref['status'] == 'optimal':
+        if res == 'not successful' and ref['status'] == 'unbounded':
+            viol('failure_means_infeasible', 'optimisation reported "not successful" but the problem is feasible and unbounded (HiGHS): e.g. %s is a feasible point' % (
+                np.round(ref['x'], 6).tolist() if ref.get('x') is not None else '?'), what='unbounded_reported_as_failure')
+        elif res == 'not successful' and ref['status'] == 'optimal':
             viol('failure_means_infeasible', 'optimisation reported "not successful" but the problem has a feasible point with value %.8g (HiGHS)' % ref['value'], what='false_failure')
-        elif res == 'not successful':
+        elif res == 'not successful' and not has_inf:
             # exact infeasibility certificate: multipliers found numerically, bound evaluated over the rationals by the model
             y = farkas_multipliers(op_snapshot)
             if y is not None:
@@ -291,7 +331,7 @@ def run_case(scn, drv):
         # the returned point is feasible, respects the flags and is BETTER than what the reference solver found: no claim
         # of the property is refuted (the reference run was suboptimal; observed with HiGHS on MIPs) - recorded only
         feats.append('reference-solver-suboptimal')
-    if not mip and res.duals is not None:
+    if not mip and res.duals is not None and not has_inf:
         prices_by_pair = {}
         dn = res.duals.get('N')
         y = []
@@ -378,4 +418,13 @@ def reference(op):
         return {'status': 'optimal', 'value': -float(sol.fun), 'x': sol.x}
     if sol.status == 2:
         return {'status': 'infeasible'}
+    if sol.status in (3, 4):
+        # unbounded, or "unbounded or infeasible" (before presolve decides): it is unbounded iff the zero-objective problem is feasible
+        try:
+            s0 = milp(c=np.zeros(n), constraints=cons, integrality=integrality, bounds=Bounds(lb, ub))
+        except Exception as e:
+            return {'status': 'error:%s' % type(e).__name__}
+        if s0.status == 0:
+            return {'status': 'unbounded', 'x': s0.x}
+        return {'status': 'infeasible' if s0.status == 2 else 'other:%d' % s0.status}
     return {'status': 'other:%d' % sol.status}
